@@ -42,7 +42,8 @@ structure HandlerD where
   tag : String
   /-- `catch e: C` — `none` for a blank `catch e` -/
   filter : Option String
-  /-- line of the closing brace of the catch clause (where `ContinueUnwind` lives) -/
+  /-- line of the closing brace of the catch clause (where `ContinueUnwind` lives; the own ip of a
+  frame whose clause declined points there, which no report shows: `Lines.tracebackIp`) -/
   contLine : Nat
   action : Action
   /-- the clause prints `e.cls().name()` -/
@@ -302,7 +303,7 @@ def unwind (ch : Chain) (funs : List FunInfo) (out : List Pat) :
     match unwindRun none f ip ds with
     | .uncaught f' =>
       { status := statusText .uncaughtError, stdout := out,
-        stderr := (printError (funAt funs) f'.frames (e.cls.headD "?") e.msg).map Pat.lit }
+        stderr := (printError (funAt funs) f' (e.cls.headD "?") e.msg).map Pat.lit }
     | .caught bt f' =>
       let declined := (ds.takeWhile fun d => !d.1).length
       match hs.drop declined with
